@@ -137,6 +137,8 @@ def build_designspace(fam, fonts, names=True, filenames=None):
             s.name = m["name"]
         if filenames:
             s.filename = filenames[i]
+        if fam.get("explicit_default_layer") and i >= 1 and i % 2 == 1:
+            s.layerName = fonts[i].layers.defaultLayer.name
         pending.append(s)
     for sp in fam.get("sparse", []):
         s = SourceDescriptor()
